@@ -24,9 +24,10 @@ import (
 	"verifharness/model"
 )
 
-const sessionTimeout = 2 * time.Second
+// timeouts are drawn per session: 2 s is the smallest the server accepts
 
 type expSession struct {
+	timeout   time.Duration
 	id        int64
 	keepFor   time.Duration // keep-alives are sent during this long (0 = never, <0 = until the end)
 	every     time.Duration
@@ -53,11 +54,12 @@ func runC14Expiry(t *rapid.T) {
 	nSess := rapid.IntRange(1, 3).Draw(t, "nSessions")
 	var ss []*expSession
 	for i := 0; i < nSess; i++ {
-		resp, err := n.lc.CreateSession(&proto.CreateSessionRequest{Shard: shardId, SessionTimeoutMs: uint32(sessionTimeout.Milliseconds()), ClientIdentity: "c"})
+		sessionTimeout := time.Duration(rapid.SampledFrom([]int{2000, 2000, 3000, 4500}).Draw(t, "timeoutMs")) * time.Millisecond
+		resp, err := n.lc.CreateSession(&proto.CreateSessionRequest{Shard: shardId, SessionTimeoutMs: uint32(sessionTimeout.Milliseconds()), ClientIdentity: fmt.Sprintf("c%d", i)})
 		if err != nil {
 			t.Fatalf("C14: CreateSession failed: %v", err)
 		}
-		s := &expSession{id: resp.SessionId, lastBeat: time.Now(), every: time.Duration(rapid.IntRange(100, 500).Draw(t, "everyMs")) * time.Millisecond}
+		s := &expSession{timeout: sessionTimeout, id: resp.SessionId, lastBeat: time.Now(), every: time.Duration(rapid.IntRange(100, 500).Draw(t, "everyMs")) * time.Millisecond}
 		switch rapid.IntRange(0, 2).Draw(t, "fate") {
 		case 0:
 			s.keepFor, s.abandoned = 0, true
@@ -66,7 +68,7 @@ func runC14Expiry(t *rapid.T) {
 		default:
 			s.keepFor = -1
 		}
-		c.logf("createSession -> %d keepFor=%v every=%v", s.id, s.keepFor, s.every)
+		c.logf("createSession -> %d timeout=%v keepFor=%v every=%v", s.id, s.timeout, s.keepFor, s.every)
 		c.sessions = append(c.sessions, s.id)
 		c.m.Sessions[s.id] = true
 		ss = append(ss, s)
@@ -180,6 +182,7 @@ func runC14Expiry(t *rapid.T) {
 		if s.keepFor > 0 {
 			continue // its last beat is still moving; checked at the end only
 		}
+		sessionTimeout := s.timeout
 		wait := time.Until(last.Add(sessionTimeout - 900*time.Millisecond))
 		if wait > 0 {
 			time.Sleep(wait)
@@ -198,9 +201,9 @@ func runC14Expiry(t *rapid.T) {
 		if !s.abandoned {
 			continue
 		}
-		d := start.Add(sessionTimeout + 2500*time.Millisecond)
+		d := start.Add(s.timeout + 2500*time.Millisecond)
 		if s.keepFor > 0 {
-			d = start.Add(s.keepFor + s.every + sessionTimeout + 2500*time.Millisecond)
+			d = start.Add(s.keepFor + s.every + s.timeout + 2500*time.Millisecond)
 		}
 		if restarted {
 			d = d.Add(restartAt)
@@ -224,6 +227,7 @@ func runC14Expiry(t *rapid.T) {
 		s.mu.Lock()
 		maxGap, beatErr, last := s.maxGap, s.beatErr, s.lastBeat
 		s.mu.Unlock()
+		sessionTimeout := s.timeout
 		if s.abandoned {
 			overdue := time.Since(last) - sessionTimeout
 			if ok {
